@@ -181,11 +181,26 @@ def run_shard(args):
     outp = f'{work}/{b}.{unit}.{prof}.out'
     if not os.path.exists(req) or os.path.getsize(req) == 0:
         return (b, unit, prof, '')
-    cmd = f'{HARNESS}/target/{prof}/{b} < {req} | {DRIVER} {prof} > {outp}'
-    rc = subprocess.call(['bash', '-o', 'pipefail', '-c', cmd])
+    ans = f'{work}/{b}.{unit}.{prof}.ans'
+    tmo = int(os.environ.get('SFX_SHARD_TIMEOUT', '900'))
+    rc = subprocess.call(['bash', '-c', f'timeout {tmo} {HARNESS}/target/{prof}/{b} < {req} > {ans}'])
+    hang = ''
+    if rc == 124:
+        # the implementation did not finish: find the request it hangs on (line-flushed rerun, short timeout)
+        subprocess.call(['bash', '-c', f'SFX_FLUSH=1 timeout 120 {HARNESS}/target/{prof}/{b} < {req} > {ans}'])
+        done = sum(1 for _ in open(ans))
+        reqs = [l for l in open(req).read().splitlines() if l.strip() and not l.startswith('#')]
+        if done < len(reqs):
+            hang = f'SPEC {reqs[done]} => TIMEOUT spec=call_did_not_return_within_the_time_limit\n'
+        # drop a possibly partial last line
+        lines = open(ans).read().splitlines()
+        open(ans, 'w').write('\n'.join(l for l in lines if ' => ' in l) + '\n')
+    elif rc != 0:
+        return (b, unit, prof, f'ERROR harness rc={rc}')
+    rc = subprocess.call(['bash', '-c', f'{DRIVER} {prof} < {ans} > {outp}'])
     if rc != 0:
-        return (b, unit, prof, f'ERROR pipeline rc={rc}')
-    return (b, unit, prof, open(outp).read())
+        return (b, unit, prof, f'ERROR driver rc={rc}')
+    return (b, unit, prof, hang + open(outp).read())
 
 def run_oracle_shard(args):
     b, unit, work = args
